@@ -242,7 +242,7 @@ def run_unit(unit, work, tier='quick'):
             else:
                 raise Undecided('loops without contract and no declared unwinding bound: %s' % nocontract)
         base += ['--object-bits', str(unit.get('object_bits', 10))]
-        backends = unit.get('backend', ['cadical', 'minisat', 'cvc5'])
+        backends = unit.get('backend', ['cadical', 'minisat'])
         if isinstance(backends, str):
             backends = [backends]
         out, be, dt = portfolio(base, backends, timeout, log)
